@@ -84,7 +84,7 @@ def xof(dom, d, Q):
     return None if P is None else P[0]
 
 
-LOCAL = ("object", "bytes", "der_ssleay", "der_pkcs8", "pem", "pem_pkcs8", "ctor")
+LOCAL = ("object", "bytes", "der_ssleay", "der_pkcs8", "pem", "pem_pkcs8", "der_foreign_pub", "pem_foreign_pub", "ctor")
 REMOTE = ("object", "raw", "uncompressed", "compressed", "hybrid", "der", "der_compressed", "pem", "ctor")
 
 
@@ -101,6 +101,15 @@ def load_local(e, sk, how):
         return e.load_private_key_pem(sk.to_pem())
     if how == "pem_pkcs8":
         return e.load_private_key_pem(sk.to_pem(format="pkcs8"))
+    if how in ("der_foreign_pub", "pem_foreign_pub"):
+        # an ECPrivateKey whose optional publicKey field holds somebody else's (valid) point: the field is documented as ignored
+        c = sk.curve
+        dom = lib.dom_of(c) if c.name in lib.BY_NAME else None
+        other = ecdsa.SigningKey.from_secret_exponent(int(sk.privkey.secret_multiplier) % (c.order - 1) + 1, c).verifying_key.to_string("uncompressed")
+        blob = R.ec_private_key(bytes(sk.to_string()), tuple(c.oid), bytes(other))
+        if how == "der_foreign_pub":
+            return e.load_private_key_der(blob)
+        return e.load_private_key_pem(R.pem(blob, "EC PRIVATE KEY"))
     raise ValueError(how)
 
 
@@ -301,7 +310,8 @@ def run(ctx, name, kind, **kw):
             # hashes of the parameters): "the same curve" must mean equal parameters, however they are compared
             from vf.ref import ec as _ec
             M61 = (1 << 61) - 1
-            variants = [("another base point", custom)]
+            variants = [("another base point", custom),
+                        ("another base point, declared with the named curve's OID", _c.Curve(cname + "_altG_sameoid", c.curve, PointJacobi(c.curve, G2[0], G2[1], 1, dom.n, generator=True), tuple(c.oid)))]
             if dom.p > 1 << 70:
                 for tag in ("b", "a"):
                     k61 = rng.randrange(1, 1 << 8) * M61
@@ -326,24 +336,28 @@ def run(ctx, name, kind, **kw):
                                      _c.Curve(cname + "_alias2_" + tag, cfp2, PointJacobi(cfp2, dom.G[0], dom.G[1], 1, dom.n, generator=True), (1, 3, 132, 0, 248))))
             for vdesc, custom in variants:
                 try:
-                    skC = ecdsa.SigningKey.from_secret_exponent(rng.randrange(1, dom.n), custom)
+                    skC0 = ecdsa.SigningKey.from_secret_exponent(rng.randrange(1, dom.n), custom)
                 except Exception:
                     ctx.count("custom_curve_key_not_constructible")
                     continue
-                for what, make in (("ctor named+custom_pub", lambda: ECDH(c, skN, skC.verifying_key)), ("ctor custom+named_pub", lambda: ECDH(custom, skC, skN.verifying_key)),
-                                   ("ctor named curve, custom keys", lambda: ECDH(c, skC, skC.verifying_key)),
-                                   ("load custom pub into named", lambda: (lambda e: (e.load_private_key(skN), e.load_received_public_key(skC.verifying_key), e)[2])(ECDH(c))),
-                                   ("set_curve(custom) after named keys", lambda: (lambda e: (e.set_curve(custom), e)[1])(ECDH(c, skN, skN.verifying_key)))):
-                    ctx.case("refuse.curve_mismatch", key="%s|custom_generator|%s" % (cname, what))
-                    try:
-                        e = make()
-                        got = e.generate_sharedsecret()
-                        ctx.violation("refusal_missing:InvalidCurveError", "%s: %s: keys of the named curve and of a custom curve (%s) were mixed, secret %x returned" % (cname, what, vdesc, got),
-                                      dict(curve=cname, what=what, variant=vdesc))
-                    except InvalidCurveError:
-                        pass
-                    except Exception as ex:
-                        ctx.violation("wrong_refusal:InvalidCurveError", "%s: %s: raised %s" % (cname, what, type(ex).__name__), dict(curve=cname, what=what))
+                import copy as _copy
+                import pickle as _pickle
+                for clone_how, skC in (("", skC0), (" (key pickled and restored)", _pickle.loads(_pickle.dumps(skC0))), (" (key deep-copied)", _copy.deepcopy(skC0))):
+                    vdesc = vdesc.split(" (key ")[0] + clone_how
+                    for what, make in (("ctor named+custom_pub", lambda: ECDH(c, skN, skC.verifying_key)), ("ctor custom+named_pub", lambda: ECDH(custom, skC, skN.verifying_key)),
+                                       ("ctor named curve, custom keys", lambda: ECDH(c, skC, skC.verifying_key)),
+                                       ("load custom pub into named", lambda: (lambda e: (e.load_private_key(skN), e.load_received_public_key(skC.verifying_key), e)[2])(ECDH(c))),
+                                       ("set_curve(custom) after named keys", lambda: (lambda e: (e.set_curve(custom), e)[1])(ECDH(c, skN, skN.verifying_key)))):
+                        ctx.case("refuse.curve_mismatch", key="%s|custom_generator|%s" % (cname, what))
+                        try:
+                            e = make()
+                            got = e.generate_sharedsecret()
+                            ctx.violation("refusal_missing:InvalidCurveError", "%s: %s: keys of the named curve and of a custom curve (%s) were mixed, secret %x returned" % (cname, what, vdesc, got),
+                                          dict(curve=cname, what=what, variant=vdesc))
+                        except InvalidCurveError:
+                            pass
+                        except Exception as ex:
+                            ctx.violation("wrong_refusal:InvalidCurveError", "%s: %s: raised %s" % (cname, what, type(ex).__name__), dict(curve=cname, what=what))
             # and the custom curve alone works like any curve
             custom = variants[0][1]
             skC = ecdsa.SigningKey.from_secret_exponent(rng.randrange(1, dom.n), custom)
